@@ -1,7 +1,7 @@
 (* C08 -- a topology is read as its preprocessed, flattened equivalent.
    Statements only; every proof is `exact <lemma>`; Print Assumptions under each. *)
 From Coq Require Import String Ascii List Bool Arith.
-From PV Require Import TopPre Gen_top C08_top.
+From PV Require Import TopPre Gen_top C08_top C08_inline_base C08_inline.
 Import ListNotations.
 Open Scope string_scope.
 
@@ -81,6 +81,35 @@ Theorem C08_section_stack :
      slist_eqb (settle top_known_sections 4 ["moleculetype"; x; y]) ["moleculetype"; y]) sub_sections) sub_sections = true.
 Proof. exact (proj1 gen_section_stack). Qed.
 Print Assumptions C08_section_stack.
+
+(* textual inlining, for the tables: an unconditional #include of a file that holds only top-level sections (defaults, atom
+   types, type tables; defines, conditionals and nested includes allowed; no molecule type, no [ molecules ]; every content
+   line after a header of the file) is read exactly as if the lines of the file stood in place of the #include line --
+   nested includes resolved relative to the included file -- followed by a check that its conditionals are closed; the only
+   trace it leaves beyond that is the current-section register, which the next section header overwrites *)
+Theorem C08_include_is_textual_inlining :
+  (forall fs fuel cwd s line p rest ls',
+     tbl s -> d_meta s = None -> plain_sec (d_sec s) = true ->
+     plain_pragma line -> tokens line = "#include" :: p :: rest ->
+     let filename := if String.eqb cwd "" then unquote p else join cwd (unquote p) in
+     fs filename = Some ls' -> tbl_lines false ls' = true ->
+     do_line top_known_sections fs (read top_known_sections fs (S fuel)) cwd s line =
+     match do_lines top_known_sections fs (read top_known_sections fs fuel) (dirname filename) s ls' with
+     | Ok s' => match d_meta s' with None => Ok (set_sec s' (d_sec s)) | Some _ => Err ErrIO end
+     | Err e => Err e
+     end) /\
+  (forall fs rd cwd s secA secB line,
+     tbl s -> plain_sec secA = true -> plain_sec secB = true ->
+     starts "#" line = false -> starts "*" line = false -> starts "[" line = true -> plain_hdr line = true ->
+     do_line top_known_sections fs rd cwd (set_sec s secA) line = do_line top_known_sections fs rd cwd (set_sec s secB) line).
+Proof. exact (conj (fun fs => include_inlined fs) register_forgotten). Qed.
+Print Assumptions C08_include_is_textual_inlining.
+
+Example C08_inlining_nonvacuous :
+  tbl ex_state /\
+  exists s', do_line top_known_sections ex_fs (read top_known_sections ex_fs 3) "" ex_state "#include ""ff/ff.itp""" = Ok s' /\
+             List.length (sh_content (d_sh s')) = 3%nat /\ defined (sh_defines (d_sh s')) "FLEX" = true /\ d_sec s' = ["defaults"].
+Proof. exact (conj (proj1 ex_inlined) (proj2 (proj2 ex_inlined))). Qed.
 
 Example C08_nonvacuous :
   clean "  [ atoms ]   ; comment" = "[ atoms ]" /\ tokens " 1  TA " = ["1"; "TA"] /\
